@@ -18,6 +18,9 @@
 #endif
 ETS_T E;
 #define KEY(t) (0x7f0000001000ull + 0x100ull * (t))
+#ifdef HCOLL
+#define HV(t) 5                           /* all thread ids collide in the table */
+#endif
 #ifndef HV
 #define HV(t) (1 + 2 * (t))                 /* top-3-bit hash of thread t; scenario may redefine (collisions) */
 #endif
